@@ -28,7 +28,7 @@ from pathlib import Path
 
 VERIF = Path(__file__).resolve().parent.parent
 LEAN_DIR = VERIF / "lean"
-DRIVER = LEAN_DIR / ".lake" / "build" / "bin" / "driver"
+BIN_DIR = LEAN_DIR / ".lake" / "build" / "bin"
 REPO = Path(os.environ.get("VERIF_REPO", "/repo"))
 ALLOWED_AXIOMS = {"propext", "Classical.choice", "Quot.sound"}
 FORBIDDEN = re.compile(
@@ -275,12 +275,13 @@ def audit(pid, module=None):
     return res
 
 
-def run_driver(requests, timeout=3600):
-    """send all requests (list of dicts) to the compiled model driver, return list of responses."""
+def run_driver(pid, requests, timeout=3600):
+    """send all requests (list of dicts) to the property's compiled model driver, return responses."""
     if not requests:
         return []
     data = "\n".join(json.dumps(r, separators=(",", ":")) for r in requests) + "\n"
-    p = subprocess.run([str(DRIVER)], input=data, capture_output=True, text=True, timeout=timeout)
+    exe = BIN_DIR / f"driver_{pid.lower()}"
+    p = subprocess.run([str(exe)], input=data, capture_output=True, text=True, timeout=timeout)
     if p.returncode != 0:
         raise RuntimeError(f"driver exited {p.returncode}: {p.stderr[:2000]}")
     lines = [l for l in p.stdout.splitlines() if l.strip()]
@@ -416,14 +417,15 @@ def run_check(chk: PropertyCheck, tier: str, seed: int, replay: str | None = Non
 
     # ---------------------------------------------------------------- 1. proofs
     targets = chk.lean_targets or [f"Props.{pid}"]
-    ok_build, build_log = lake_build([*targets, "driver"])
+    drv = f"driver_{pid.lower()}"
+    ok_build, build_log = lake_build([*targets, drv])
     proof_broken = []
     thms = []
     if not ok_build:
         failed = sorted(set(re.findall(r"error: (\S+\.lean):\d+", build_log)))
         proof_broken.append({"kind": "build", "files": failed, "log_tail": build_log[-3000:]})
         # the driver may still be buildable on its own
-        ok_drv, _ = lake_build(["driver"])
+        ok_drv, _ = lake_build([drv])
         if not ok_drv:
             emit(f"INTERNAL: model driver does not build\n{build_log[-3000:]}")
             return 2
@@ -473,7 +475,7 @@ def run_check(chk: PropertyCheck, tier: str, seed: int, replay: str | None = Non
             rs = []
         spans.append((len(reqs), len(reqs) + len(rs)))
         reqs.extend(rs)
-    resps = run_driver(reqs)
+    resps = run_driver(pid, reqs)
 
     cmp = Cmp(chk.rtol, chk.atol)
     disagreements = []
@@ -544,7 +546,7 @@ def run_check(chk: PropertyCheck, tier: str, seed: int, replay: str | None = Non
             continue
         seen_fail_keys.add(k)
         report_case(c2, obs2, None, detail2, "oracle")
-        if len(violations) >= 5:
+        if len(violations) >= 3:
             break
 
     unexplained = [x for x in disagreements if case_key(x[0]) not in
